@@ -334,6 +334,12 @@ theorem code_fllExportEngine (c : Cfg) (indent sep : String) (e : Engine) :
       σ.ret = some (Py.Fll.join sep ((fllExport c e).map (Py.Fll.lineText indent c.d) ++ [""])) :=
   Py.Fll.code_fllExportEngine c indent sep e
 
+/-- with the default indent and separator the text of `code_fllExportEngine` is the text the driver renders from the
+    model lines (`Op.FllIO.renderLines`), i.e. the text the correspondence runs compare with the real exporter's -/
+theorem exporter_text_is_driver_text (c : Cfg) (e : Engine) :
+    Py.Fll.join "\n" ((fllExport c e).map (Py.Fll.lineText "  " c.d) ++ [""]) = renderLines c.d (fllExport c e) :=
+  Py.Fll.engine_text_default c e
+
 /-- the side conditions hold for the engines of the round-trip theorems (regenerated tables, `decide`) -/
 theorem exporter_side_conditions (e : Engine) (h : WellFormed e) :
     Py.Fll.engineNamed e ∧ ∀ b ∈ e.blocks, ∀ r ∈ b.rules, Py.Fll.ruleNamed r :=
